@@ -78,6 +78,8 @@ def run(R, job):
             content = []
         doc = core.HTMLDocument(*content, **attrs)
         if shape == "appended":
+            doc.render(lib_prefix=r.choice(["lib", None, "x/y"]), include_version=r.random() < 0.5)      # an earlier render must not be remembered
+            doc.render()
             doc.append(core.Tag("div", *frag(2)), dep(7))
             content = list(doc._content)
         lp = r.choice(["lib", None, "x/y"])
